@@ -120,6 +120,9 @@ def handle (j : Json) : Json :=
           ("lines", Json.arr (summaryLines.map (fun l => Json.str (renderLine summaryTable net l))).toArray),
           ("totals", Json.arr ([Tot.cells, .pops, .conns, .projs, .inputs, .inputLists].map
             (fun t => Json.num (total summaryTable net t : Nat))).toArray)])).toArray)]
+  | "match_time" =>
+    let s := (getStr j "s").toList
+    Json.mkObj [("match", matchTime s), ("num", String.ofList (timeNumSplit s).1)]
   | "spec" =>
     -- the vocabulary of the theorem statements, so the harness can check it generates exactly these strings
     let pop := (getStr j "pop").toList
